@@ -72,7 +72,14 @@ _CONFIRMED_NONTERM = [0]
 
 _UNMONITORED = r"""
 import json, resource, sys
-resource.setrlimit(resource.RLIMIT_AS, (4 << 30, 4 << 30))
+try:
+    soft, hard = resource.getrlimit(resource.RLIMIT_AS)
+    want = 3 << 30
+    if hard != resource.RLIM_INFINITY:
+        want = min(want, hard)
+    resource.setrlimit(resource.RLIMIT_AS, (want, hard))
+except (ValueError, OSError):
+    pass
 import pdpy11.bk_encoding
 from pdpy11 import parser, compiler, reports
 files = json.load(sys.stdin)
@@ -88,7 +95,7 @@ print("ENDED")
 
 def finishes_unmonitored(files, charset):
     """Third stage for an input that exceeded the logical budget twice (1x, 40x): the plain assembler in a process of its own, no
-    instrumentation, 4 GiB, 7 minutes.  True only if it came to an end by itself (success or reported failure)."""
+    instrumentation, at most 3 GiB, 7 minutes.  True only if it came to an end by itself (success or reported failure)."""
     import json
     import subprocess
     import sys
